@@ -30,7 +30,7 @@ type Obligation struct {
 	reach    string
 	vc       *VC
 	inputs   []ModelVar
-	FileHint string `json:"-"`
+	FileHint string     `json:"-"`
 	rp       *replayCtx // what a generic replay needs (function, parameter values, results at exit)
 }
 
@@ -118,15 +118,18 @@ type Exec struct {
 	compInit map[string]string
 	nfresh   int
 
-	entry   *State
-	entryW  string
-	rpParams  []Value
-	rpNames   []string
-	rpResults []Value
-	rpExitE   map[string]string
-	params  map[string]Value
-	mods    []modEntry
-	hasMods bool
+	entry       *State
+	entryW      string
+	writeBlk    *ssa.BasicBlock // while a helper is inlined: the caller's block, to which its writes are attributed
+	inlineDepth int
+	inlined     map[string]bool
+	rpParams    []Value
+	rpNames     []string
+	rpResults   []Value
+	rpExitE     map[string]string
+	params      map[string]Value
+	mods        []modEntry
+	hasMods     bool
 
 	cur      *ssa.BasicBlock
 	reach    string
@@ -372,10 +375,14 @@ func (e *Exec) setComp(s *State, name, sort, term string) {
 	}
 	s.comp[name] = term
 	if e.discovery && e.cur != nil {
-		w := e.writes[e.cur]
+		blk := e.cur
+		if e.writeBlk != nil {
+			blk = e.writeBlk
+		}
+		w := e.writes[blk]
 		if w == nil {
 			w = map[string]bool{}
-			e.writes[e.cur] = w
+			e.writes[blk] = w
 		}
 		w[name] = true
 	}
@@ -383,10 +390,14 @@ func (e *Exec) setComp(s *State, name, sort, term string) {
 
 func (e *Exec) noteCellWrite(a *ssa.Alloc) {
 	if e.discovery && e.cur != nil {
-		w := e.writes[e.cur]
+		blk := e.cur
+		if e.writeBlk != nil {
+			blk = e.writeBlk
+		}
+		w := e.writes[blk]
 		if w == nil {
 			w = map[string]bool{}
-			e.writes[e.cur] = w
+			e.writes[blk] = w
 		}
 		k := fmt.Sprintf("cell:%p", a)
 		w[k] = true
